@@ -33,6 +33,10 @@ func longText(n int) string {
 
 func randFile(r *rng) repository.Hash { return repository.Hash(randHexId(r, 40)) }
 
+// fileSource produces the hash of an attached file. The default invents hashes (fine for
+// in-memory compilation); scenarios that push or fsck set it to store a real blob.
+var fileSource = randFile
+
 func randFiles(r *rng) []repository.Hash {
 	if !r.chance(1, 3) {
 		return nil
@@ -40,9 +44,22 @@ func randFiles(r *rng) []repository.Hash {
 	n := r.rangeInt(1, 3)
 	out := make([]repository.Hash, n)
 	for i := range out {
-		out[i] = randFile(r)
+		out[i] = fileSource(r)
 	}
 	return out
+}
+
+// storeFilesIn makes attached files real blobs of the given repository.
+func storeFilesIn(repo repository.RepoData) func() {
+	old := fileSource
+	fileSource = func(r *rng) repository.Hash {
+		h, err := repo.StoreData([]byte("attachment " + randHexId(r, 12)))
+		if err != nil {
+			panic(err)
+		}
+		return h
+	}
+	return func() { fileSource = old }
 }
 
 func randMd(r *rng, num, den int) map[string]string {
